@@ -38,6 +38,11 @@ impl PreprocessedText {
     }
 
     fn push<T: AsRef<Path>>(&mut self, s: &str, origin: Option<(T, Range)>) {
+        // An empty range compares Equal to its neighbour under Range's
+        // overlap ordering and would replace that neighbour's entry.
+        if s.is_empty() {
+            return;
+        }
         let base = self.text.len();
         self.text.push_str(s);
 
